@@ -847,4 +847,87 @@ def exportMPolygonAll (comp : Nat → Nat) (sub : P2 → P2 → P2) (r2010 : Boo
   a1 ++ tagI 91 n :: (exportPaths comp sub r2010 false paths ++
     (a2 ++ (patAttrs a3 pat ++ (a4 ++ (mpatPart pat ++ (a5 ++ g))))))
 
+/-! ### MTEXT columns in the embedded object of DXF R2018 (`MText.export_embedded_object` /
+    `load_columns_from_embedded_object`) and the LTYPE pattern tags -/
+
+structure MCols where
+  ctype : Int                -- ColumnType: 0 NONE, 1 STATIC, 2 DYNAMIC
+  count : Int
+  autoH : Bool
+  revFlow : Bool
+  definedH : Nat
+  width : Nat
+  gutter : Nat
+  totalW : Nat
+  totalH : Nat
+  heights : List Nat
+  deriving DecidableEq, Repr
+
+/-- `cols.has_dynamic_auto_height` -/
+def MCols.dynAuto (c : MCols) : Bool := c.ctype == 2 && c.autoH
+
+/-- the tags behind `(101, "Embedded Object")`; `dir`, `ins`, `w` = dxf.text_direction, dxf.insert, dxf.width -/
+def exportCols (dir ins : P3) (w : Nat) (c : MCols) : List Tag :=
+  [tagI 70 1, tagP3 10 dir, tagP3 11 ins, tagD 40 w, tagD 41 c.definedH, tagD 42 c.totalW, tagD 43 c.totalH,
+   tagI 71 c.ctype, tagI 72 (if c.dynAuto then 0 else c.count), tagD 44 c.width, tagD 45 c.gutter,
+   tagI 73 (boolInt c.autoH), tagI 74 (boolInt c.revFlow)] ++ c.heights.map (tagD 46)
+
+structure ColSt where
+  c : MCols
+  dir : Option P3            -- `dxf.text_direction = Vec3(value)` (only when the MTEXT attribute is not set)
+  ins : Option P3
+  w : Option Nat
+
+/-- one round of the loop of `load_columns_from_embedded_object`; `hasDir` … : the MTEXT attribute is set already -/
+def colStep (hasDir hasIns hasW : Bool) (σ : ColSt) (t : Tag) : ColSt :=
+  if t.code == 10 && !hasDir then { σ with dir := some (p3Of t.val) }
+  else if t.code == 11 && !hasIns then { σ with ins := some (p3Of t.val) }
+  else if t.code == 40 && !hasW then { σ with w := some (dblOf t.val) }
+  else if t.code == 41 then { σ with c := { σ.c with definedH := dblOf t.val } }
+  else if t.code == 42 then { σ with c := { σ.c with totalW := dblOf t.val } }
+  else if t.code == 43 then { σ with c := { σ.c with totalH := dblOf t.val } }
+  else if t.code == 44 then { σ with c := { σ.c with width := dblOf t.val } }
+  else if t.code == 45 then { σ with c := { σ.c with gutter := dblOf t.val } }
+  else if t.code == 71 then { σ with c := { σ.c with ctype := intOf t.val } }
+  else if t.code == 72 then { σ with c := { σ.c with count := intOf t.val } }
+  else if t.code == 73 then { σ with c := { σ.c with autoH := truthVal t.val } }
+  else if t.code == 74 then { σ with c := { σ.c with revFlow := truthVal t.val } }
+  else if t.code == 46 then { σ with c := { σ.c with heights := σ.c.heights ++ [dblOf t.val] } }
+  else σ
+
+/-- "The column count is not defined explicit": from the heights, else `recount total_width gutter width`
+    (`int(round((total_width + g) / abs(width + g)))` when that is defined, else 0: a double computation, parameter) -/
+def fixCount (recount : Nat → Nat → Nat → Int) (c : MCols) : MCols :=
+  if c.count == 0 then
+    (if c.heights = [] then { c with count := recount c.totalW c.gutter c.width }
+     else { c with count := Int.ofNat c.heights.length })
+  else c
+
+/-- `load_columns_from_embedded_object`: `MTextColumns()` starts as STATIC, count 1, all lengths 0.0 -/
+def loadCols (recount : Nat → Nat → Nat → Int) (hasDir hasIns hasW : Bool) (tags : List Tag) : ColSt :=
+  let σ := tags.foldl (colStep hasDir hasIns hasW) ⟨⟨1, 1, false, false, 0, 0, 0, 0, 0, []⟩, none, none, none⟩
+  { σ with c := fixCount recount σ.c }
+
+/-- what comes back: the count of dynamic columns with automatic height is not written (72, 0) and recomputed -/
+def canonCols (recount : Nat → Nat → Nat → Int) (c : MCols) : MCols :=
+  fixCount recount { c with count := if c.dynAuto then 0 else c.count }
+
+/-- `LinetypePattern.export_dxf` for DXF R2000+: the stored pattern tags as they are -/
+def exportLtypePattern (pattern : List Tag) : List Tag := pattern
+
+/-- `Linetype.load_dxf_attribs`: the pattern = the tags `fast_load_dxfattribs` leaves unprocessed -/
+def loadLtype (m : Mapping) (sub : List Tag) (ns : NS) : NS × List Tag := fastLoad m sub ns
+
+/-- the pattern length tag of `export_r12_dxf`: the first 40 tag, else the sum of the absolute element lengths
+    (`sumAbs`, a double computation, is a parameter) -/
+def lenTag (sumAbs : List Tag → Nat) (tags : List Tag) : Tag :=
+  match tags.find? (·.code == 40) with
+  | some t => t
+  | none => tagD 40 (sumAbs (tags.filter (·.code == 49)))
+
+/-- `LinetypePattern.export_r12_dxf`: alignment 65, the number of dash elements, the pattern length and the dash
+    elements (49); the element type tags (74) and everything a complex line type holds are not written -/
+def ltypeR12 (sumAbs : List Tag → Nat) (tags : List Tag) : List Tag :=
+  tagI 72 65 :: tagN 73 (tags.filter (·.code == 49)).length :: lenTag sumAbs tags :: tags.filter (·.code == 49)
+
 end EzdxfVerif.Payload
